@@ -1405,10 +1405,9 @@ cdef class NNPSBase:
                                 size_t d_idx, UIntArray nbrs):
         cdef int idx = dst_index*self.narrays + src_index
         if self.use_cache:
-            if self.src_index != src_index \
-                or self.dst_index != dst_index \
-                or self.current_cache is None:
-                self.set_context(src_index, dst_index)
+            # Always set the context: an update() in between may have
+            # re-allocated what the previous context pointed to.
+            self.set_context(src_index, dst_index)
             return self.cache[idx].get_neighbors(src_index, d_idx, nbrs)
         else:
             return self.get_nearest_particles_no_cache(
